@@ -36,12 +36,25 @@ def make_state(r, fam, S, n):
             row = [r.choice([0.0, r.uniform(95, 105), 99.999, 100.0, 100.001]) for _ in range(n)]
         elif fam == "large":
             row = [r.choice([0.0, r.uniform(200, 5000), 10 ** r.uniform(3, 6)]) for _ in range(n)]
+        elif fam == "wide-4096":
+            row = [r.choice([0.0, 0.0, r.uniform(0.05, 8.0), float(r.randint(1, 9))]) for _ in range(n)]
+        elif fam == "dilute-wide":
+            # a few molecules (or less than one) spread over more than a thousand cells
+            tot = r.choice([0.51, 0.93, 2.88, 7.3])
+            pop = [i for i in range(n) if r.random() < 0.6]
+            row = [0.0] * n
+            for i in pop:
+                row[i] = tot / len(pop)
         else:  # sparse: one species concentrated in few cells, others empty -> a transposition scrambles the zero pattern
             row = [0.0] * n
             if s % 2 == 0:
                 for _ in range(max(1, n // 4)):
                     row[r.randrange(n)] = r.uniform(3, 60)
         st += row
+    if fam == "wide-4096":
+        for k in (4095, 4096, 8191, 8192, len(st) - 1):      # entries at the ends of 4096-item blocks
+            if k < len(st):
+                st[k] = r.uniform(3.0, 9.0)
     if not any(st):
         st[r.randrange(len(st))] = r.uniform(0.2, 5.0)
     return st
@@ -54,8 +67,24 @@ def build(sd, idx):
     kind_ = r.choice(engines.KINDS)
     mode = r.choice(MODES)
     fam = r.choice(["below-one", "integers", "fractional", "around-100", "large", "sparse", "sparse", "fractional"])
+    if idx % 400 == 11:
+        fam = "wide-4096"
+    elif idx % 400 == 211:
+        fam = "dilute-wide"
     S = r.randint(1, 5)
-    if r.random() < 0.5:
+    if fam in ("wide-4096", "dilute-wide"):
+        S = r.randint(1, 2)
+        if r.random() < 0.6:
+            w, h, d = r.choice([(17, 17, 17), (70, 70, 1), (4100, 1, 1), (65, 8, 8)]) if fam == "wide-4096" else r.choice([(12000, 1, 1), (60, 50, 1), (20, 20, 20)])
+            space = st.RDGridSpace(w=w, h=h, d=d, cell_vol=r.uniform(0.5, 2.0))
+            n, sp = w * h * d, "grid"
+        else:
+            n = r.choice([4100, 4500]) if fam == "wide-4096" else r.choice([2500, 6000])
+            nodes = [st.RDGraphSpaceNode(volume=r.uniform(0.5, 2.0)) for _ in range(n)]
+            edges = [st.RDGraphSpaceEdge(i, i + 1, surface=1.0, distance=1.0) for i in range(n - 1) if r.random() < 0.7]
+            space = st.RDGraphSpace(nodes, edges)
+            sp = "graph"
+    elif r.random() < 0.5:
         w, h, d = r.choice([(1, 1, 1), (2, 1, 1), (3, 2, 1), (5, 1, 1), (2, 3, 2), (4, 3, 1), (6, 5, 2), (7, 1, 1), (3, 1, 2)])
         space = st.RDGridSpace(w=w, h=h, d=d, cell_vol=r.uniform(0.5, 2.0))
         n = w * h * d
